@@ -18,6 +18,10 @@ def queries(dx, pdf, other, npart=4):
         return dx.from_pandas(pdf, npartitions=npart)
     def oth():
         return dx.from_pandas(other, npartitions=2)
+    def big():
+        import pandas as pd
+        n = 2400
+        return dx.from_pandas(pd.DataFrame({"k": [(i * 7919) % 2003 for i in range(n)], "v": range(n)}), npartitions=4)
     Q = {
         "source": lambda: src(),
         "add1": lambda: src()[["a", "b"]] + 1,
@@ -93,6 +97,17 @@ def queries(dx, pdf, other, npart=4):
         "round": lambda: src()[["c"]].round(),
         "two-shifts": lambda: (lambda d: d.a.shift(1) + d.a.shift(2))(src()),
         "bcast-scalar": lambda: (lambda d: d.a + d.a.sum())(src()),
+        "isin-strings": lambda: (lambda d: d[d.s.isin(["w0", "w2", "zz", "w0", "alpha", "beta"])])(src()),
+        "isin-ints": lambda: (lambda d: d[d.b.isin([3, 1, 1, 7])])(src()),
+        "quantile-25": lambda: src().a.quantile(0.25),
+        "quantile-75": lambda: src().a.quantile(0.75),
+        "iqr": lambda: (lambda d: d.a.quantile(0.75) - d.a.quantile(0.25))(src()),
+        "set_index-drop-false-head": lambda: src().set_index("a", drop=False).head(3, compute=False),
+        # large enough that the partition-quantile sketch samples (its sampling seed has to be a function of the operands only)
+        "big-set_index": lambda: big().set_index("k"),
+        "big-set_index-partition1": lambda: big().set_index("k").partitions[[1]],
+        "big-sort_values": lambda: big().sort_values("k"),
+        "big-sort_values-partition0": lambda: big().sort_values("k").partitions[[0]],
     }
     return Q
 
